@@ -92,6 +92,8 @@ def report_bad(rep, events, bad_idx, cases_by_i, bounds, rej, seen):
                 rep.violation(sig, {"kind": "summary", "event": e}, json.dumps(e))
             continue
         b = events[li - 2]
+        if e["out"] == "panic" and "decode/src/" in e.get("note", ""):
+            raise ToolError("panic inside the harness, not in the code under test: " + e["note"][:300])
         sig = signature(b, e, bounds)
         if sig in seen:
             continue
@@ -140,7 +142,7 @@ def run_single(wd, case, bounds_path):
         how = "signal %d" % -p.returncode if p.returncode < 0 else "exit %d" % p.returncode
         pk = min(max(refused), 2_000_000_000) if refused else 0
         return begin, {"k": "End", "i": begin["i"], "out": "abort", "consumed": 0, "peak": pk, "reads": 0, "maxreq": pk, "note": how,
-                       "alloc_refused": str(max(refused)) if refused else None}
+                       "alloc_refused": str(max(refused)) if refused else ""}
     raise ToolError("replay: no result")
 
 
@@ -276,6 +278,8 @@ def run(tier, replay):
         raise ToolError("decode harness: " + tool[0]["what"])
     if info["seeds_failed"]:
         raise ToolError("valid encodings that the unchanged decoders should accept were refused (harness seeds wrong?): %s" % info["seeds_failed"][:3])
+    if info.get("skipped_after_breaker"):
+        log("note: %d inputs of %s skipped after repeated confirmed aborts/hangs of those decoders" % (info["skipped_after_breaker"], info["breaker_decoders"]))
     if info["unconfirmed"]:
         log("note: %d child deaths / silences were not reproduced when the input was re-run alone (not reported)" % info["unconfirmed"])
 
@@ -290,6 +294,7 @@ def run(tier, replay):
 
     # coverage
     sums = [e for e in events if e["k"] == "Sum"]
+    ind = [e for e in events if e["k"] == "End"]
     per_dec = collections.OrderedDict()
     honest = {}
     for s in sums:
@@ -303,12 +308,23 @@ def run(tier, replay):
             bd = bounds[s["dec"] + "@" + s["ct"]]
             honest[s["dec"]] = {"peak": s["hp"], "len": s["hl"], "bound": bd["a"] + bd["b"] * s["hl"]}
     never_ok = [d for d, v in per_dec.items() if v["ok"] == 0]
-    if never_ok:
+    if never_ok and not rep.violations:
         raise ToolError("decoders that never returned a value (their valid encodings are wrong): %s" % never_ok)
     seeds_run = sum(s.get("seeds", 0) for s in sums)
     seeds_ok = sum(s.get("seeds_ok", 0) for s in sums)
     ind = [e for e in events if e["k"] == "End"]
+    calls_made = sum(s["n"] for s in sums) + len(ind)
     rep.coverage = {
+        "evaluations": calls_made,
+        "distinct_nontrivial": info["distinct_nontrivial"],
+        "rule": "one evaluation = one call of one decoder (decoder x reader x protocol version x chain type x input), inputs generated as: "
+                "valid encodings written by the repository's own encoders; TLC-enumerated mutation plans (Decode.tla: integer fields set to boundary/limit/huge "
+                "values, tag sweeps, truncation at every field boundary / offset, field drop / duplicate / splice from another message) applied to them; "
+                "seeded random bytes of length 0..2048; a valid prefix followed by random bytes; well-formed frame headers with random or valid bodies. "
+                "A call is non-trivial when the decoder returned a value or consumed >= 16 input bytes before refusing (string decoders: input of >= 2 "
+                "characters) or ended in anything but ok|err; distinct = distinct 64-bit FNV-1a hash of (decoder, reader, version, chain type, check "
+                "parameters, input bytes), de-duplicated over the whole run.",
+        "nontrivial_calls": info["nontrivial_calls"],
         "states": m.distinct, "transitions": m.generated,
         "traces_validated_against_impl": 1,
         "samples": [{"plan": plans[len(plans) // 3]}, {"plan": plans[-1]},
@@ -325,6 +341,7 @@ def run(tier, replay):
         "individually_logged_calls": len(ind), "summary_events": len(sums),
         "children": info["children"], "child_restarts": info["restarts"], "unconfirmed_child_deaths": info["unconfirmed"],
         "dropped_repeats_of_logged_classes": info["dropped_repeats"],
+        "inputs_skipped_after_breaker": info.get("skipped_after_breaker", 0),
         "selftest_corruptions_refused": nself,
         "versions": [1, 2, 3, 1000], "chain_types": ["AutomatedTesting", "Mainnet"], "harness_run_s": round(run_s, 1),
         "per_input_timeout_ms": TIMEOUT_MS,
